@@ -46,8 +46,31 @@ theorem C18_num_get (u : Universe) (s : St) (i : Nat) (py : String) (v : Int)
     (hk : fkind (clsOf u (s.inst i).cls) (xoName (clsOf u (s.inst i).cls) py) = some .num)
     (hd : (s.inst i).dressed.lookup (xoName (clsOf u (s.inst i).cls) py) = none)
     (hv : xread s.heap ((s.inst i).loc.sub (xoName (clsOf u (s.inst i).cls) py)) = some (.num v)) :
-    hget u s i py = .num v := by
+    hget u s i py = (s, .num v) := by
   simp [hget, hk, hd, hv]
+
+/-- **a reference attribute is what the buffer says, whatever is cached**: in EVERY state - also when the reference was changed
+through another object dressing the same memory - the attribute of a reference field is the cached dressed object only if the
+buffer refers to exactly that object; otherwise it is the object the buffer refers to, or None for the null reference -/
+theorem C18_ref_get_mirrors (u : Universe) (s : St) (i : Nat) (py : String) (c' c'' : Nat) (t : Option Loc)
+    (hk : fkind (clsOf u (s.inst i).cls) (xoName (clsOf u (s.inst i).cls) py) = some (.ref c'))
+    (hv : xread s.heap ((s.inst i).loc.sub (xoName (clsOf u (s.inst i).cls) py)) = some (.ref c'' t)) :
+    match (hget u s i py).2, t with
+    | .inst j, some l => (s.inst j).loc = l
+    | .bare l', some l => l' = l
+    | .none_, none => True
+    | _, _ => False := by
+  simp only [hget, hk, hv]
+  cases hd : (s.inst i).dressed.lookup (xoName (clsOf u (s.inst i).cls) py) with
+  | none => cases t <;> simp
+  | some j =>
+    cases t with
+    | none => simp
+    | some l =>
+      simp only
+      by_cases he : l = (s.inst j).loc
+      · simp [he]
+      · simp [he]
 
 /-- **reference across buffers is refused and changes nothing** -/
 theorem C18_ref_across_buffers_refused (u : Universe) (s : St) (i j : Nat) (py : String) (c' : Nat)
@@ -152,7 +175,7 @@ example :
                                ((0, 2), .struct 1 [("inner", .ref 0 none)])], next := 3, ctxOf := fun _ => 0 }
     let s : St := { heap := h, insts := [⟨0, ⟨0, 0, []⟩, [], true, []⟩, ⟨0, ⟨1, 1, []⟩, [], true, []⟩, ⟨1, ⟨0, 2, []⟩, [], true, []⟩] }
     (hset u s 2 "inn" (.dressed 1)).2 = some .memory ∧ (hset u s 2 "inn" (.dressed 0)).2 = none ∧
-    hget u (hset u s 2 "inn" (.dressed 0)).1 2 "inn" = .inst 0 := by
+    (hget u (hset u s 2 "inn" (.dressed 0)).1 2 "inn").2 = .inst 0 := by
   decide
 
 end Hyb
